@@ -14,6 +14,7 @@ import (
 	"github.com/projectcalico/calico/felix/dataplane/windows/hns"
 	"github.com/projectcalico/calico/felix/dataplane/windows/policysets"
 	"github.com/projectcalico/calico/felix/proto"
+	googleproto "google.golang.org/protobuf/proto"
 
 	"verif/harness/rt"
 )
@@ -445,8 +446,7 @@ func svcWithSource(r *proto.Rule, inbound bool) bool {
 }
 
 func googleClone(r *proto.Rule) *proto.Rule {
-	c := *r //nolint:govet // shallow copy of the fields the harness looks at is enough
-	return &c
+	return googleproto.Clone(r).(*proto.Rule)
 }
 
 // flatten runs the REAL flattenTiers + rewritePriorities on deep copies; a panic is reported.
@@ -456,22 +456,14 @@ func flatten(lists [][]*hns.ACLPolicy) (out []*hns.ACLPolicy, panicked string) {
 			out, panicked = nil, fmt.Sprint(r)
 		}
 	}()
-	cp := make([][]*hns.ACLPolicy, len(lists))
-	for i, l := range lists {
-		for _, r := range l {
-			c := *r
-			cp[i] = append(cp[i], &c)
-		}
-	}
-	out = windataplane.VerifFlattenTiers(cp)
-	// flattenTiers may return rules shared with its input; copy before rewriting priorities
-	res := make([]*hns.ACLPolicy, len(out))
-	for i, r := range out {
-		c := *r
-		res[i] = &c
-	}
-	windataplane.VerifRewritePriorities(res, policysets.PolicyRuleMaxPriority)
-	return res, ""
+	// Exactly what endpointManager.refreshPendingWlEpUpdates does: the slices returned by
+	// GetPolicySetRules go STRAIGHT into flattenTiers (which rewrites the Action of the last tier's
+	// pass rules in place) and rewritePriorities (which overwrites Priority in place).  No copies
+	// here: if GetPolicySetRules hands out pointers into its cache, this corrupts the cache and the
+	// next round on the same PolicySets sees it.
+	out = windataplane.VerifFlattenTiers(lists)
+	windataplane.VerifRewritePriorities(out, policysets.PolicyRuleMaxPriority)
+	return out, ""
 }
 
 func renderTiers(lists [][]*hns.ACLPolicy) string {
@@ -720,15 +712,28 @@ func exec(h *rt.H, s *state, op string) string {
 			tiers = append(tiers, tier{q[0] == "1", splitL(",", q[1])})
 		}
 		var lists [][]*hns.ACLPolicy
+		var before []string // the tiers as returned, rendered BEFORE flattening touches them
 		for _, t := range tiers {
-			lists = append(lists, s.ps.GetPolicySetRules(t.ids, inbound, t.eot))
+			l := s.ps.GetPolicySetRules(t.ids, inbound, t.eot)
+			lists = append(lists, l)
+			before = append(before, renderRules(l))
 		}
+		tiersBefore := strings.Join(before, " /// ")
 		flat, panicked := flatten(lists)
+		// aliasing oracle: asking again for the same tiers must give what the first call gave
+		// (GetPolicySetRules returns fresh copies; nothing downstream may reach its cache)
+		for i, t := range tiers {
+			if again := renderRules(s.ps.GetPolicySetRules(t.ids, inbound, t.eot)); again != before[i] {
+				h.OracleFail("policyset-cache-mutated", "flattening the rules returned by GetPolicySetRules changed what GetPolicySetRules returns for the same arguments (its result aliases the PolicySets cache)",
+					map[string]any{"op": op, "tier": i, "first": before[i], "second": again})
+				break
+			}
+		}
 		if w[0] == "flat" {
 			if panicked != "" {
 				h.Count("flat:panic")
 				h.OracleFail("flatten-panic", "flattenTiers panics ("+panicked+") while combining a pass rule with the next tier's rule",
-					map[string]any{"op": op, "tiers": renderTiers(lists)})
+					map[string]any{"op": op, "tiers": tiersBefore})
 				return "panic"
 			}
 			h.Count(fmt.Sprintf("flat:tiers=%d", len(tiers)))
@@ -774,7 +779,7 @@ func exec(h *rt.H, s *state, op string) string {
 				sig = "flatten-disjoint-ports-any"
 			}
 			h.OracleFail(sig, "the flattened multi-tier HNS rules give a different verdict than evaluating the tiers in order",
-				map[string]any{"op": op, "hns": acts, "policy": ref, "tiers": renderTiers(lists), "flat": renderRules(flat)})
+				map[string]any{"op": op, "hns": acts, "policy": ref, "tiers": tiersBefore, "flat": renderRules(flat)})
 		default:
 			h.Count("fpkt:oracle-checked")
 		}
@@ -1061,30 +1066,40 @@ func genCase(h *rt.H) []string {
 		}
 	}
 	queries()
-	if h.Chance(0.6) {
-		// multi-tier layouts: split the policies over 2..3 tiers
-		var ts []string
-		nt := 2 + h.Intn(2)
-		// a policy belongs to exactly one tier; tiers without policies are skipped (as Felix does)
-		assign := make([][]string, nt)
-		for _, pid := range pols {
-			k := h.Intn(nt)
-			assign[k] = append(assign[k], pid)
-		}
-		for i := 0; i < nt; i++ {
-			if len(assign[i]) > 0 {
-				ts = append(ts, rt.Pick(h, []string{"0", "1", "1"})+":"+strings.Join(assign[i], ","))
+	layouts := func() {
+		// several endpoint-refresh rounds on the SAME PolicySets, each with its own tier layout
+		// (a policy belongs to exactly one tier per round; empty tiers are skipped, as Felix does;
+		// the order of tiers varies so that a policy is in the last tier in one round and not in another)
+		rounds := 1 + h.Intn(3)
+		for rd := 0; rd < rounds && !big; rd++ {
+			nt := 1 + h.Intn(3)
+			assign := make([][]string, nt)
+			for _, pid := range pols {
+				k := h.Intn(nt)
+				assign[k] = append(assign[k], pid)
 			}
-		}
-		tspec := strings.Join(ts, "/")
-		if !big {
+			if h.Bool() {
+				for i, j := 0, nt-1; i < j; i, j = i+1, j-1 {
+					assign[i], assign[j] = assign[j], assign[i]
+				}
+			}
+			var ts []string
+			for i := 0; i < nt; i++ {
+				if len(assign[i]) > 0 {
+					ts = append(ts, rt.Pick(h, []string{"0", "1", "1"})+":"+strings.Join(assign[i], ","))
+				}
+			}
+			tspec := strings.Join(ts, "/")
 			d := rt.Pick(h, []string{"in", "out"})
 			ops = append(ops, fmt.Sprintf("flat %s %s", d, tspec))
-			for i := 0; i < 5+h.Intn(6); i++ {
+			for i := 0; i < 3+h.Intn(5); i++ {
 				ops = append(ops, fmt.Sprintf("fpkt %s %s %d %s %d %s %d", d, tspec, rt.Pick(h, []int{6, 6, 17, 132, 1}),
 					dotted(0x0a000000+uint32(h.Intn(12))), rt.Pick(h, g.pp)+rt.Pick(h, []int{0, 0, 1}), dotted(0x0a000000+uint32(h.Intn(300))), rt.Pick(h, g.pp)+rt.Pick(h, []int{0, 0, 1})))
 			}
 		}
+	}
+	if h.Chance(0.7) {
+		layouts()
 	}
 	if h.Chance(0.3) {
 		// change an IP set, refresh, query again; sometimes delete a policy
@@ -1094,6 +1109,9 @@ func genCase(h *rt.H) []string {
 			ops = append(ops, "del "+pols[0])
 		}
 		queries()
+		if h.Chance(0.5) {
+			layouts()
+		}
 	}
 	// direct calls of the rule converter with a small chunk size (splits addresses and ports)
 	for i := 0; i < h.Intn(3) && !big; i++ {
